@@ -253,7 +253,7 @@ func drawReq(t *rapid.T, pool *gen.LeafPool, allowBig bool) Req {
 		e := gen.UTF8Expr(pool.Expr(t, gen.ExprOpts{MaxDepth: 4}))
 		return fix.PBQuery(e, nil, int32(rapid.IntRange(0, 3).Draw(t, "id")))
 	}
-	kind := rapid.IntRange(0, 9).Draw(t, "reqkind")
+	kind := rapid.IntRange(0, 10).Draw(t, "reqkind")
 	if (kind == 6 || kind == 7) && (!allowBig || rapid.IntRange(0, 7).Draw(t, "big?") != 0) {
 		// deep and wide requests cost seconds each (evaluation is quadratic in
 		// the nesting depth): keep them rare, and out of the in-process pre-filter
@@ -272,6 +272,23 @@ func drawReq(t *rapid.T, pool *gen.LeafPool, allowBig bool) Req {
 			q.GroupBy = []string{"no_such_column"}
 		}
 		return Req{Wire: marshal(req), Kind: label}
+	case 8: // operand-count sweep: an AND/OR with exactly n operands (valid leaves)
+		n := rapid.IntRange(0, 40).Draw(t, "noperands")
+		leaf := fix.ToPB(gen.UTF8Expr(pool.Leaf(t, gen.ExprOpts{})))
+		var ops []*pb.Query_Expression
+		for i := 0; i < n; i++ {
+			ops = append(ops, leaf)
+		}
+		var e *pb.Query_Expression
+		if rapid.Bool().Draw(t, "sweepop") {
+			e = &pb.Query_Expression{Value: &pb.Query_Expression_And_{And: &pb.Query_Expression_And{Exprs: ops}}}
+		} else {
+			e = &pb.Query_Expression{Value: &pb.Query_Expression_Or_{Or: &pb.Query_Expression_Or{Exprs: ops}}}
+		}
+		if rapid.Bool().Draw(t, "sweepnest") {
+			e = &pb.Query_Expression{Value: &pb.Query_Expression_Not_{Not: &pb.Query_Expression_Not{Expr: e}}}
+		}
+		return Req{Wire: marshal(&pb.QueryRequest{Queries: []*pb.Query{{Expr: e}}}), Kind: fmt.Sprintf("operand-count-%d", n)}
 	case 5: // nil / empty query entries
 		req := &pb.QueryRequest{Queries: []*pb.Query{{}, {Id: 4}, {GroupBy: []string{"a"}}}}
 		return Req{Wire: marshal(req), Kind: "empty-queries"}
@@ -334,6 +351,33 @@ func drawCase(t *rapid.T, nreq int) *Case {
 			c.Reqs = append(c.Reqs, r)
 		}
 	}
+	if rapid.IntRange(0, 5).Draw(t, "slow+incomplete") == 0 {
+		// one request that is both slow (a deep chain costs a noticeable
+		// fraction of a second) and contains an incomplete query
+		leaf := fix.ToPB(gen.UTF8Expr(pool.Leaf(t, gen.ExprOpts{})))
+		heavy := &pb.Query{Expr: deepNot(rapid.SampledFrom([]int{3000, 6000}).Draw(t, "heavydepth"), leaf)}
+		var broken *pb.Query
+		switch rapid.IntRange(0, 2).Draw(t, "brokenkind") {
+		case 0:
+			broken = &pb.Query{}
+		case 1:
+			broken = &pb.Query{Expr: &pb.Query_Expression{Value: &pb.Query_Expression_Not_{Not: &pb.Query_Expression_Not{}}}}
+		default:
+			broken = &pb.Query{Expr: &pb.Query_Expression{Value: &pb.Query_Expression_And_{And: &pb.Query_Expression_And{Exprs: []*pb.Query_Expression{{}}}}}}
+		}
+		if w := marshal(&pb.QueryRequest{Queries: []*pb.Query{heavy, broken}}); w != nil {
+			c.Reqs = append(c.Reqs, Req{Wire: w, Kind: "slow-request-with-incomplete-query"})
+		}
+	}
+	if rapid.IntRange(0, 7).Draw(t, "flood") == 0 {
+		// error flood: many cheap failing requests in a row (a handler that
+		// leaks something per failed request wears out)
+		bad := marshal(&pb.QueryRequest{Queries: []*pb.Query{{Expr: fix.ToPB(model.Eq("no_such_column", "x"))}, {}}})
+		k := rapid.SampledFrom([]int{140, 300, 600}).Draw(t, "floodn")
+		for i := 0; i < k; i++ {
+			c.Reqs = append(c.Reqs, Req{Wire: bad, Kind: "error-flood"})
+		}
+	}
 	return c
 }
 
@@ -364,6 +408,9 @@ func run(t interface{ Fatalf(string, ...any) }, c *Case, sub string) {
 		k := strings.SplitN(r.Kind, "@", 2)[0]
 		if strings.HasPrefix(k, "deep-nesting") {
 			k = "deep-nesting"
+		}
+		if strings.HasPrefix(k, "operand-count") {
+			k = "operand-count-sweep(0..40)"
 		}
 		kinds["kind:"+k] = true
 		if strings.Contains(r.Kind, "@depth") && !strings.HasSuffix(r.Kind, "@depth0") {
